@@ -404,6 +404,35 @@ func binDrivers(o corrOpts, sum *res.Summary, r *rng.R, bin string) {
 			baseKeys = saved
 		}
 	}
+	// scan-tests switched on through the environment only: diagnostics inside test files, under both drivers
+	{
+		env := []string{"GOGREEMENT_SCAN_TESTS=true"}
+		var sub string
+		for _, p := range pats {
+			if strings.Contains(p, "/u") || strings.Contains(p, "/d0") {
+				sub = "./" + strings.SplitN(strings.TrimPrefix(p, "./"), "/", 2)[0] + "/..."
+				break
+			}
+		}
+		// a program generated with test files
+		for i := 0; i < n; i += 3 {
+			sub = fmt.Sprintf("./k%d/...", i)
+			break
+		}
+		saved := baseKeys
+		byEnv := runStandalone(bin, dir, nil, env, sub)
+		baseKeys = runKeys(byEnv, nil)
+		inTests := 0
+		for _, k := range baseKeys {
+			if strings.Contains(k, "_test.go:") {
+				inTests++
+			}
+		}
+		sum.AddN("diagnostics-in-test-files-scan-tests-env", inTests)
+		cmp("govet-scan-tests-env "+sub, runKeys(runVet(bin, dir, nil, env, sub), nil), nil)
+		cmp("standalone-scan-tests-flag "+sub, runKeys(runStandalone(bin, dir, []string{"-config.scan-tests=true"}, nil, sub), nil), nil)
+		baseKeys = saved
+	}
 	// in-process, with the checker's fact sanity check (gob round trip of every fact)
 	var roots []*packages.Package
 	for _, p := range pkgs {
@@ -523,6 +552,14 @@ func binExclude(o corrOpts, sum *res.Summary, r *rng.R, bin string) {
 				s = append(s, s[0])
 			}
 			structured = append(structured, s)
+		}
+	}
+	// ALL together with other tokens (ALL still excludes everything), and repeated
+	for _, other := range []string{"IMM01", "imm", "XYZ", "ALL", "CTOR02", "TONL", "junk"} {
+		if r.Bool() {
+			structured = append(structured, []string{"ALL", other})
+		} else {
+			structured = append(structured, []string{other, "ALL"})
 		}
 	}
 	if o.tier != "thorough" {
@@ -1195,6 +1232,7 @@ func binExcludeDir(o corrOpts, sum *res.Summary, r *rng.R, bin string) {
 			{"absolute", abs + "/" + tok + "/", dir},
 			{"plain, started inside the program", tok + "/", filepath.Join(dir, fmt.Sprintf("k%d", i))},
 			{"leading-separator, started inside the excluded directory", "/" + tok + "/", filepath.Join(dir, tok)},
+			{"flag-over-environment", tok + "/", dir},
 		} {
 			p := pat
 			if v.cwd != dir {
@@ -1202,7 +1240,12 @@ func binExcludeDir(o corrOpts, sum *res.Summary, r *rng.R, bin string) {
 			}
 			how := "flag"
 			var rn binRun
-			if (vi+i)%2 == 0 {
+			if v.name == "flag-over-environment" {
+				// the environment names something else (and switches scan-tests on); the flags win
+				how = "flag+env"
+				rn = runStandaloneAt(bin, v.cwd, dir, []string{"-config.exclude-paths=" + v.entry, "-config.scan-tests=false"},
+					[]string{"GOGREEMENT_EXCLUDE_PATHS=nosuchdir,vendor", "GOGREEMENT_SCAN_TESTS=true"}, p)
+			} else if (vi+i)%2 == 0 {
 				rn = runStandaloneAt(bin, v.cwd, dir, []string{"-config.exclude-paths=" + v.entry}, nil, p)
 			} else {
 				how = "env"
